@@ -201,6 +201,35 @@ fn shrink_doc(c: &Case, class: &str) -> Case {
             break;
         }
     }
+    // a shorter query that still shows it, then the document again
+    for _ in 0..40 {
+        let mut progressed = false;
+        for q in gen::shrink_query(&cur.query) {
+            let cand = Case { personality: cur.personality, doc: cur.doc.clone(), query: q };
+            if check_case(&cand).map(|x| x.class == class).unwrap_or(false) {
+                cur = cand;
+                progressed = true;
+                break;
+            }
+        }
+        if !progressed {
+            break;
+        }
+    }
+    for _ in 0..100 {
+        let mut progressed = false;
+        for d in cands(&cur.doc) {
+            let cand = Case { personality: cur.personality, doc: d, query: cur.query.clone() };
+            if check_case(&cand).map(|x| x.class == class).unwrap_or(false) {
+                cur = cand;
+                progressed = true;
+                break;
+            }
+        }
+        if !progressed {
+            break;
+        }
+    }
     // a simpler personality that still shows it
     for bit in [4u8, 2, 1] {
         if cur.personality & bit != 0 {
@@ -468,7 +497,7 @@ pub fn drive(tier_name: &str, seed: u64, workers: usize) -> i32 {
         for ((_, c, q), v) in &table {
             as_value_table.insert((plan.repr, c.clone(), q.clone()), v.clone());
         }
-        let min = c12::minimise(plan, &as_value_table, &m.class, &m.kind, 300);
+        let min = c12::minimise(plan, &mut as_value_table, &m.class, &m.kind, 300);
         let (rfull, mm) = match c12::run_plan(&min, true) {
             Ok(r) => {
                 let ms = c12::judge(&min, &r, &as_value_table);
